@@ -28,7 +28,7 @@
    Tie to the code: (1) the Dependencies lists parsed from every generated *_gen.go file
    must equal jdeps; (2) every execution of the generated programs must make the calls,
    return the error and leave the results the model computes. *)
-From CffVerif Require Import FlowOpModel FlowOpProofs ValidateModel FlowBridge FlowAdequacy FlowComplete FlowListing.
+From CffVerif Require Import FlowOpModel FlowOpProofs ValidateModel FlowAdequacy FlowComplete FlowListing FlowBridge.
 
 Theorem C02_schedule_independent :
   forall f sc, unique_providers f ->
@@ -73,12 +73,15 @@ Theorem C02_variable_independent :
 Proof. exact slot_confluent. Qed.
 Print Assumptions C02_variable_independent.
 
-(* "for every Flow that cff accepts": the validator model of C14 guarantees the hypothesis,
-   whatever the decoration (FallbackWith, error results, Invoke) of the tasks *)
+(* "for every Flow that cff accepts": a flow accepted by the validator model of C14 satisfies
+   both hypotheses used in this file - unique providers, and a source for every consumed
+   type - whatever the decoration (FallbackWith, error results, Invoke) of its tasks *)
 Theorem C02_accepted_flows_qualify :
   forall (f : ValidateModel.flow) (g : fflow), accepts f = true ->
-    map kouts (gtasks g) = map ValidateModel.touts (ftasks f) -> unique_providers g.
-Proof. exact accepted_unique_providers_gen. Qed.
+    gparams g = fparams f -> gresults g = fresults f ->
+    map shape (gtasks g) = map shape (gtasks (to_fflow f)) ->
+    unique_providers g /\ all_provided_b g = true.
+Proof. exact accepted_qualifies. Qed.
 Print Assumptions C02_accepted_flows_qualify.
 
 (* the task function is called only after its predicate returned true *)
